@@ -28,11 +28,14 @@ def gen_circuit_text(rng, maxops, nmodes=8):
             for _ in range(rng.choice([1, 1, 2])):
                 if rng.random() < 0.3:
                     regs = rng.sample(range(nmodes + 2), rng.choice([1, 1, 2]))
+                    # q01 is register 1 as much as q1 is (one spelling per register here: two spellings of one
+                    # register in a single expression are two SymPy symbols)
+                    regs = [("0" * rng.choice([0, 0, 0, 1, 2]) + str(q)) for q in regs]
                     parts.append(gen.r_expr(gen.gen_symexpr(rng, [("reg", q) for q in regs], 1, None, need_all=True), gen.Layout()))
                 else:
                     parts.append(rng.choice(["0.5", "1", "2.5", "0.1", "1+2j"]))
             if rng.random() < 0.3:
-                regs = rng.sample(range(nmodes + 2), 1)
+                regs = [("0" * rng.choice([0, 0, 1]) + str(q)) for q in rng.sample(range(nmodes + 2), 1)]
                 parts.append("phi=" + gen.r_expr(gen.gen_symexpr(rng, [("reg", q) for q in regs], 1, None), gen.Layout()))
             args = "(" + ", ".join(parts) + ")"
         ms = ", ".join(str(m) for m in modes)
@@ -47,6 +50,33 @@ def wires_of(op):
         if isinstance(a, RegRefTransform):
             w |= set(a.regrefs)
     return w
+
+
+def check_regraph(text, seed):
+    """the graph is a function of the program as it is NOW: convert, change some modes in place (same
+    number of operations), convert again, compare with the graph of a deep copy"""
+    import copy
+    import random as _r
+    from blackbird.utils import to_DiGraph
+    rng = _r.Random(seed)
+    r = core.impl_loads(text)
+    if r[0] != "ok":
+        return None
+    p = r[1]
+    with core.quiet():
+        to_DiGraph(p)
+        for o in p._operations:
+            if rng.random() < 0.5:
+                o["modes"] = [(int(m) + 1) % 8 for m in o["modes"]]
+        g1 = to_DiGraph(p)
+        g2 = to_DiGraph(copy.deepcopy(p))
+
+    def desc(g):
+        return (sorted((n, g.nodes[n]["name"], tuple(g.nodes[n]["modes"])) for n in g.nodes()), sorted(g.edges()))
+    if desc(g1) != desc(g2):
+        return "after operations were edited in place, to_DiGraph returns a graph that is not the program's: %s vs %s" % (
+            desc(g1)[0][:4], desc(g2)[0][:4])
+    return None
 
 
 def check_graph(text, rng):
@@ -122,6 +152,8 @@ def api_graph(spec):
 
 
 def replay(ctx, data):
+    if data.get("kind") == "regraph":
+        return check_regraph(data["text"], data.get("seed", 0))
     if data.get("kind") == "api_graph":
         return api_graph(data["spec"])
     if data.get("kind") == "graph":
@@ -178,4 +210,9 @@ def run(ctx):
         msg = check_graph(t, ctx.rng)
         if msg:
             ctx.violation("graph: " + msg, {"kind": "graph", "text": t})
+        elif i % 5 == 0:
+            msg = check_regraph(t, ctx.rng.randrange(1 << 30))
+            ctx.count("graph-after-in-place-edit")
+            if msg:
+                ctx.violation("graph: " + msg, {"kind": "regraph", "text": t, "seed": 0})
     graph_corr(ctx, texts)
